@@ -82,6 +82,9 @@ func (p *Provider) Run(ctx context.Context, deps core.ProviderDeps) (err error) 
 		err = p.loadAmmo(ctx)
 		if err == nil {
 			err = p.runPreloaded(ctx)
+			if errors.Is(err, decoders.ErrAmmoLimit) || errors.Is(err, decoders.ErrPassLimit) {
+				err = nil // Reaching limit or passes is the normal end of ammo, same as without preload.
+			}
 		}
 	} else {
 		err = p.runFullScan(ctx)
